@@ -14,7 +14,7 @@ def run_case(spec):
 def check(rep, tier, seed, specs=None, n_override=None):
     quick = tier == 'quick'
     if specs is None:
-        n = n_override or (4000 if quick else 200000)
+        n = n_override or (12000 if quick else 200000)
         specs = [{'seed': common.hash64('c09', 'fixed' if i < n // 2 else seed, i)} for i in range(n)]
         specs += [{'kind': 'reject', 'seed': common.hash64('c09r', i)} for i in range(4)]
     results, lost = common.shard_run('c09', specs, timeout_s=1500 if quick else 6 * 3600)
